@@ -6,6 +6,7 @@ import (
 	"io"
 	"log/slog"
 	"strconv"
+	"strings"
 	"sync"
 	"sync/atomic"
 	"testing"
@@ -85,7 +86,22 @@ func genCase(t *rapid.T) termCase {
 		opts.MinDur, opts.MaxDur = 7*time.Second, 9*time.Second
 	}
 	c.Shape = vlib.GenShape(t, opts)
-	c.SleepUs = rapid.SampledFrom([]int{100, 1000, 5000}).Draw(t, "sleepMicros")
+	c.SleepUs = rapid.SampledFrom([]int{100, 1000, 5000, 20000}).Draw(t, "sleepMicros")
+	if c.Ending == "own-duration" && rapid.IntRange(0, 2).Draw(t, "usersThenRate") == 0 {
+		// a config file whose users stage is followed by a rate stage: the worker count drops to zero
+		// between the stages and rises again; the run must still wait for the last stage's iterations
+		sh := &c.Shape
+		sh.Mode = "file"
+		d1, d2 := rapid.IntRange(100, 200).Draw(t, "usersStageMs"), rapid.IntRange(100, 250).Draw(t, "rateStageMs")
+		sh.FileYAML = fmt.Sprintf("scenario: %s\nlimits:\n  max-duration: %s\n  concurrency: %d\n  max-iterations: 0\n  ignore-dropped: true\nstages:\n"+
+			"- duration: %dms\n  mode: users\n  concurrency: %d\n- duration: %dms\n  mode: constant\n  rate: %d/10ms\n  jitter: 0\n  distribution: none\n",
+			vlib.ScenarioName, sh.MaxDuration, sh.Concurrency, d1, sh.Concurrency, d2, sh.Concurrency)
+		sh.OwnDuration = time.Duration(d1+d2) * time.Millisecond
+		sh.MaxIterations = 0
+		sh.Desc = "file c=" + fmt.Sprint(sh.Concurrency) + " users-then-rate yaml=" + strings.ReplaceAll(sh.FileYAML, "\n", "|")
+		c.Blocking = "sleep"
+		c.SleepUs = 20000
+	}
 	c.WaitMs = 20000
 	if c.Blocking == "blocked" {
 		c.Blocked = rapid.IntRange(1, c.Shape.Concurrency).Draw(t, "blocked")
